@@ -8,7 +8,8 @@
    edges: [e_author] is the edge's verifying key.  Payloads are well-formed (the JSON parse
    errors of UserNode::parse / EntityRightNode::parse are not modelled).  Of an authorisation
    row only (id, mdate, author) are kept (its name and the need_update write flag are not).
-   Lists of the Rights model are newest-first.  No proofs here. *)
+   Lists of the Rights model are newest-first.  State of /repo: after the fix commits 83dc3ea
+   (oldest-first export) and 85b1827 (prepare_new_auth).  No proofs here. *)
 From DV Require Export Rights.
 
 Record unode := { un_id : uid; un_date : Z; un_author : key; un_key : key; un_enabled : bool }.
@@ -249,11 +250,20 @@ Fixpoint all_admin_users (r : room) (l : list unode) : bool :=
   | x :: tl => is_admin r (un_author x) (un_date x) && all_admin_users r tl
   end.
 
-(* prepare_new_auth: users against the group's OWN user admins, rights against the room's admins,
-   the group's user-admin entries are not checked *)
+Fixpoint all_uadmin_or_admin_users (r : room) (a : auth) (l : list unode) : bool :=
+  match l with
+  | [] => true
+  | x :: tl => (can_admin_users a (un_author x) (un_date x) || is_admin r (un_author x) (un_date x)) &&
+               all_uadmin_or_admin_users r a tl
+  end.
+
+(* prepare_new_auth (as of 85b1827): the new group's user-admin entries against the room's admins,
+   its users against the group's own user admins or the room's admins, its rights against the
+   room's admins *)
 Definition prepare_new_auth (r : room) (g : anode) : pres unit :=
   do a <- parse_auth g ;;
-  if negb (all_uadmin_users a (an_unodes g)) then PErr (EInvalid 30)
+  if negb (all_admin_users r (an_anodes g)) then PErr (EInvalid 41)   (* same message as site 41 *)
+  else if negb (all_uadmin_or_admin_users r a (an_unodes g)) then PErr (EInvalid 30)
   else if negb (all_admin_rights r (an_rnodes g)) then PErr (EInvalid 31)
   else POk tt.
 
@@ -346,17 +356,10 @@ Definition prepare_room_node (known : option room) (old : option roomnode) (cand
   end.
 
 (* ------------------------------------------------------------------ storage order *)
-(* RoomNode::read / AuthorisationNode::read return every entry list newest first
-   (edges sorted by cdate descending, nodes read in that order) *)
-Definition read_auth (a : anode) : anode :=
-  {| an_id := an_id a; an_date := an_date a; an_author := an_author a;
-     an_redges := rev (an_redges a); an_rnodes := rev (an_rnodes a);
-     an_uedges := rev (an_uedges a); an_unodes := rev (an_unodes a);
-     an_aedges := rev (an_aedges a); an_anodes := rev (an_anodes a) |}.
-Definition read_order (n : roomnode) : roomnode :=
-  {| rmn_id := rmn_id n; rmn_cdate := rmn_cdate n; rmn_date := rmn_date n; rmn_author := rmn_author n;
-     rmn_aedges := rev (rmn_aedges n); rmn_anodes := rev (rmn_anodes n);
-     rmn_gedges := rmn_gedges n; rmn_gnodes := map read_auth (rmn_gnodes n) |}.
+(* RoomNode::read / AuthorisationNode::read (as of 83dc3ea) return every entry list oldest first
+   (references sorted by cdate ascending, rows read in that order): the stored form of a definition
+   whose lists are in insertion order is that definition *)
+Definition read_order (n : roomnode) : roomnode := n.
 
 (* ------------------------------------------------------------------ decisions *)
 Definition decide (r : room) (p : key * entity * Z) : list Z :=
